@@ -275,6 +275,8 @@ def wrappers(ctx, prog):
                 continue
             n += 1
             final = [c for c in single_call([path]) if c[1] in (callee, callee.replace("__bytes_", "bytes_"))]
+            if not final and _too_long_exit(path, a0, kind):
+                continue          # a pattern longer than the haystack cannot occur (SCAN row "pattern longer than haystack"): "not found" without searching
             if len(final) != 1:
                 msg = "expected exactly one call to %s on every path" % callee.split("::")[-1]
                 break
@@ -292,6 +294,19 @@ def wrappers(ctx, prog):
         if msg:
             ctx.violation("DLG", "%s|%s" % (prog.config, short), "%s: %s" % (fn, msg), b.file())
         ctx.instance("DLG", "%s|%s" % (prog.config, short), sample={"fn": short, "delegates_to": callee.split("::")[-1], "result": kind})
+
+
+def _too_long_exit(path, a0, kind):
+    """the path answers "not found" under the condition len(haystack) < len(normalised pattern)"""
+    v = table.strip_gargs(path.value)
+    nothing = ("bool", False) if kind == "is_some" else table.NONE
+    if v != nothing:
+        return False
+    for c in path.conds:
+        c = table.norm_atom(table.strip_gargs(c))
+        if c[0] == "lt" and c[1] == ("len", a0) and c[2][0] == "len" and _is_norm_pattern(c[2][1], 2):
+            return True
+    return False
 
 
 def split_once(ctx, prog):
